@@ -36,7 +36,8 @@ def run():
         rep.add(Ob(id="cxx.translate", status="unknown", backend="clang", detail=str(e)))
         return rep
     sections_parallel(rep, [("helpers", _helpers), ("copies", _copies), ("enum", _enum), ("fill", _fill), ("lemmas", _lemmas),
-                            ("bins", _bins), ("query", _query), ("tensor", _tensor), ("wrapper", _wrapper), ("driver", _driver)])
+                            ("bins", _bins), ("query", _query), ("tensor", lambda r: _tensor(r, [False])), ("tensor-inf", lambda r: _tensor(r, [True])),
+                            ("wrapper", _wrapper), ("driver", _driver)], jobs=12)
     return rep
 
 
@@ -768,12 +769,12 @@ def _query(rep):
                       ("CellList_get_neighbours_for_position", 4): LoopSpec(lambda *a: [], havoc_level(3), name="bin-content", body_post=body_atoms)})
 
 
-def _tensor(rep):
+def _tensor(rep, infs=(False, True)):
     """CellList::get_displacement_tensor: per atom i the map keeps, for every original index j < i, the nearest scanned image within the
     cutoff (entries only improve); the fill writes (i,j) and (j,i) antisymmetrically; the diagonal is zero"""
     m = X.module()
     FT = "CellList_get_displacement_tensor"
-    for inf in (False, True):
+    for inf in infs:
         lab = "tensor[cutoff=inf]." if inf else "tensor."
 
         def arrs(st):
